@@ -359,3 +359,93 @@ fn c19_witness_must_fail() {
     std::mem::forget((cand, res, auth));
     assert!(!got && got, "reachability witness");
 }
+
+// EffectiveAuthority::authorize on concrete control-plane rows ---------------------------------------
+// Precedence: inactive principal / suspended space -> explicit deny -> allows (owner, matching
+// grants) -> default deny; an unlabelled element is judged at the *Space's* default classification.
+// The clock is stubbed (the windows here are open-ended), format! is stubbed (ids and reasons).
+fn now_stub() -> crate::time::Timestamp {
+    "55".to_string()
+}
+fn authority_with(principal_active: bool, space_suspended: bool, is_owner: bool, deny_all: bool, grant: Option<Candidate>, space_default: &str) -> EffectiveAuthority {
+    let mut space = SpaceRow::default();
+    space.status = if space_suspended { "suspended".to_string() } else { "active".to_string() };
+    space.default_classification = space_default.to_string();
+    let mut principal = PrincipalRow::default();
+    principal.principal_id = "p".to_string();
+    principal.status = if principal_active { status::ACTIVE.to_string() } else { "suspended".to_string() };
+    let mut statements = Vec::new();
+    if deny_all {
+        statements.push(PolicyStatement { effect: "deny".to_string(), ..Default::default() });
+    }
+    let mut candidates = Vec::new();
+    if let Some(c) = grant {
+        candidates.push(c);
+    }
+    EffectiveAuthority { space, principal, groups: Vec::new(), is_owner, policy: None, bindings: Vec::new(), statements, candidates }
+}
+fn read_grant(kind_bound: Option<String>, ceiling: &str) -> Candidate {
+    Candidate {
+        id: "g".to_string(),
+        actions: vec!["read".to_string()],
+        scope: AuthorityScope { kinds: match kind_bound { Some(k) => vec![k], None => vec![] }, ..Default::default() },
+        conditions: AuthorityConditions::default(),
+        constraints: AuthorityConstraints { max_classification: ceiling.to_string(), ..Default::default() },
+        delegation_allowed: false,
+    }
+}
+
+// @check id=C19 tier=thorough cap=1500 mem=24 role=authorize_precedence
+// @fns governance::decision::EffectiveAuthority::authorize, governance::decision::candidate_matches, governance::decision::EffectiveAuthority::statement_matches
+// @bound principal active or not, space suspended or not, owner or not, an unconditional deny statement present or not, one read grant bounded to a one-byte kind (symbolic) present or not; resource kind a symbolic one-byte label
+// @stubs time::now -> "55"; alloc::fmt::format -> String::new()
+#[kani::proof]
+#[kani::unwind(8)]
+#[kani::stub(crate::time::now, now_stub)]
+#[kani::stub(alloc::fmt::format, fmt_stub)]
+fn c19_authorize_precedence_inactive_deny_allow_default_deny() {
+    let (active, suspended, owner, deny_all, has_grant): (bool, bool, bool, bool, bool) = (kani::any(), kani::any(), kani::any(), kani::any(), kani::any());
+    let gk = lab();
+    let rk = lab();
+    let grant_matches = has_grant && gk.as_bytes()[0] == rk.as_bytes()[0];
+    let ea = authority_with(active, suspended, owner, deny_all, if has_grant { Some(read_grant(Some(gk), "")) } else { None }, "");
+    let res = ResourceContext { kind: rk, ..Default::default() };
+    let auth = AuthContext::principal("p");
+    let a = ea.authorize(Permission::Read, &res, &auth);
+    let expect = active && !suspended && !deny_all && (owner || grant_matches);
+    assert!(a.decision.is_permitted() == expect, "permitted iff the principal is active, the space is not suspended, no explicit deny matches and an owner or a matching grant allows it");
+    if !expect {
+        assert!(a.decision == Decision::Deny, "everything else is a plain deny");
+    }
+    kani::cover!(expect && !owner, "allowed by a grant");
+    kani::cover!(!expect && owner && deny_all && active && !suspended, "an explicit deny beats the owner");
+    kani::cover!(!expect && active && !suspended && !deny_all && has_grant, "a grant for another kind does not apply");
+    std::mem::forget((a, ea, res, auth));
+}
+
+// @check id=C19 tier=thorough cap=1500 mem=24 role=authorize_unlabelled_uses_space_default
+// @fns governance::decision::EffectiveAuthority::authorize, governance::decision::EffectiveAuthority::default_classification, governance::decision::reaches_classification
+// @bound space default classification and the grant's ceiling each a symbolic choice among public / secret (equal length); the resource unlabelled vs labelled with the space default (two runs)
+// @stubs time::now -> "55"; alloc::fmt::format -> String::new()
+#[kani::proof]
+#[kani::unwind(8)]
+#[kani::stub(crate::time::now, now_stub)]
+#[kani::stub(alloc::fmt::format, fmt_stub)]
+fn c19_unlabelled_element_is_judged_at_the_space_default() {
+    let pick = |b: bool| if b { "public" } else { "secret" };
+    let (sd, ce): (bool, bool) = (kani::any(), kani::any());
+    let ea = authority_with(true, false, false, false, Some(read_grant(None, pick(ce))), pick(sd));
+    let auth = AuthContext::principal("p");
+    let unlabelled = ResourceContext { kind: "a".to_string(), ..Default::default() };
+    let labelled = ResourceContext { kind: "a".to_string(), classification: pick(sd).to_string(), ..Default::default() };
+    let a1 = ea.authorize(Permission::Read, &unlabelled, &auth);
+    let a2 = ea.authorize(Permission::Read, &labelled, &auth);
+    assert!(a1.decision.is_permitted() == a2.decision.is_permitted(), "an element with no label of its own is treated exactly like one labelled with the Space default");
+    // secret default under a public ceiling must be refused
+    if !sd && ce {
+        assert!(!a1.decision.is_permitted(), "an unlabelled element in a secret-by-default Space is invisible to an authority capped at public");
+    }
+    kani::cover!(!sd && ce, "secret default, public ceiling");
+    kani::cover!(a1.decision.is_permitted(), "readable");
+    std::mem::forget((a1, a2, ea, auth, unlabelled, labelled));
+}
